@@ -166,7 +166,7 @@ func (p *solverProc) readSexp() (string, error) {
 type SolverStats struct {
 	Sat, Unsat, Unknown int64
 	TimeNs              int64
-	XSat, XUnsat, XUnknown, XDisagree int64
+	XSat, XUnsat, XUnknown, XDisagree, XSkipped int64
 	XTimeNs             int64
 }
 
@@ -183,6 +183,7 @@ type Solver struct {
 	script  []string // commands of the current path scope (for cross-check)
 	inPath  bool
 	usesStrFP bool
+	timeoutMs int
 }
 
 func newSolver(primaryTimeoutMs int, cross bool) (*Solver, error) {
@@ -190,7 +191,7 @@ func newSolver(primaryTimeoutMs int, cross bool) (*Solver, error) {
 	if err != nil {
 		return nil, err
 	}
-	s := &Solver{p: p}
+	s := &Solver{p: p, timeoutMs: primaryTimeoutMs}
 	if cross {
 		x, err := startProc("z3", 5000)
 		if err == nil {
@@ -198,6 +199,22 @@ func newSolver(primaryTimeoutMs int, cross bool) (*Solver, error) {
 		}
 	}
 	return s, nil
+}
+
+// restart replaces a dead primary process and replays the current path scope into it.
+func (s *Solver) restart() {
+	s.p.close()
+	p, err := startProc("cvc5", s.timeoutMs)
+	if err != nil {
+		return
+	}
+	s.p = p
+	if s.inPath {
+		s.p.send("(push 1)\n")
+		for _, c := range s.script {
+			s.p.send(c)
+		}
+	}
 }
 
 func (s *Solver) Close() {
@@ -323,6 +340,11 @@ func (s *Solver) Check(extra *Term, vars []*Term) (SatResult, map[string]ModelVa
 	s.p.send("(check-sat)\n")
 	r, msg := s.p.readResult()
 	atomic.AddInt64(&gStats.TimeNs, int64(time.Since(t0)))
+	if strings.Contains(msg, "solver died") {
+		s.restart()
+		atomic.AddInt64(&gStats.Unknown, 1)
+		return Unknown, nil, msg
+	}
 	var model map[string]ModelVal
 	switch r {
 	case Sat:
@@ -343,6 +365,11 @@ func (s *Solver) Check(extra *Term, vars []*Term) (SatResult, map[string]ModelVa
 // Returns Unknown when there is no second solver or it has no opinion.
 func (s *Solver) CrossCheck(extra *Term) SatResult {
 	if s.x == nil {
+		return Unknown
+	}
+	if s.usesStrFP {
+		// string / floating-point queries are decided by cvc5 alone (z3 times out on them: DESIGN 2.4)
+		atomic.AddInt64(&gStats.XSkipped, 1)
 		return Unknown
 	}
 	txt := ""
